@@ -455,6 +455,7 @@ class PipeWorld(World):
         if kind == 'direct':
             self.face = DirectFace(self._on_tx)
             self.face.rx_buffer = self.cfg.get('rx_buffer', 'bytes')
+            self.face.on_tx_mutated = self._tx_mutated
             self.peer = None
         elif kind in ('tcp', 'unix'):
             from ndn.transport.stream_face import TcpFace, UnixFace
@@ -979,12 +980,22 @@ class PipeWorld(World):
             limit = self.run()
             if getattr(self, 'harness_failure', None):
                 raise HarnessError(self.harness_failure)
+            if hasattr(self.face, 'recheck_tx'):
+                self.face.recheck_tx()
             self._post_run(limit)
             from engines import pipeline_model
             pipeline_model.judge(self)
             return self.result(limit, keep_events)
         finally:
             self.close()
+
+    def _tx_mutated(self, was, now):
+        # (reported for the property under check when that property speaks of what is transmitted)
+        prop = self.scenario['property']
+        if prop in ('C04', 'C10'):
+            self.violate(prop, 'tx-buffer-reused', self.fe, 'send',
+                         f'a buffer handed to face.send() ({len(was)} bytes: {was[:24].hex()}...) was overwritten afterwards '
+                         f'(now {now[:24].hex()}...): a transport that queues what it is given sends the later content')
 
     def _run_ops(self, batch):
         for fn, op in batch:
